@@ -606,6 +606,28 @@ func DoCmd(vm *ds.Context, c Cmd) *Outcome {
 		case "restore":
 			// the host rolls its VM's variables back to a stored snapshot, in place
 			err = json.Unmarshal([]byte(c.Src), vm.Attrs)
+		case "flags":
+			// the host changes syntax switches of its VM between evaluations: "coc=0,wod=1,fate=0,dc=1,stmt=0,..."
+			for _, kv := range strings.Split(c.Src, ",") {
+				k, v, _ := strings.Cut(kv, "=")
+				on := v == "1"
+				switch k {
+				case "coc":
+					vm.Config.EnableDiceCoC = on
+				case "wod":
+					vm.Config.EnableDiceWoD = on
+				case "fate":
+					vm.Config.EnableDiceFate = on
+				case "dc":
+					vm.Config.EnableDiceDoubleCross = on
+				case "nostmt":
+					vm.Config.DisableStmts = on
+				case "nond":
+					vm.Config.DisableNDice = on
+				case "nobit":
+					vm.Config.DisableBitwiseOp = on
+				}
+			}
 		case "lang":
 			// the host changes the error language of its VM between evaluations
 			n, _ := strconv.Atoi(c.Src)
